@@ -5442,6 +5442,22 @@ where
 }
 
 // Custom Serialize implementation that only serializes the Tds
+impl<K, U, V, const D: usize> DelaunayTriangulation<K, U, V, D>
+where
+    K: Kernel<D>,
+    U: DataType,
+    V: DataType,
+{
+    /// Drops the insertion-time caches (locate hint and spatial duplicate index).
+    ///
+    /// Used by edits that change the vertex set without going through `insert`, so that the
+    /// lazily rebuilt index never misses a vertex that is present.
+    pub(crate) fn invalidate_insertion_caches(&mut self) {
+        self.insertion_state.last_inserted_cell = None;
+        self.spatial_index = None;
+    }
+}
+
 impl<K, U, V, const D: usize> Serialize for DelaunayTriangulation<K, U, V, D>
 where
     K: Kernel<D>,
